@@ -31,7 +31,7 @@ TECHNIQUE = "exhaustive subset enumeration of entry specs built as real tmpfs tr
 RULE = (
     "all path-consistent subsets (size bound per tier) of a universe of entry specs (files in 4 attribute/data groups "
     "where equal group = hardlinked, relative/absolute/chained (outer name sorting before and after the inner)/dangling symlinks, fifos, char and block devices, explicit "
-    "directories with sticky/odd owners) are built on tmpfs, scanned, written and read back through three writers "
+    "directories with sticky/odd owners, sibling names that merely start with a directory symlink's name) are built on tmpfs, scanned, written and read back through three writers "
     "(bzip2 write_set/generate_contents, uncompressed add_contents_to_tarfile/convert_archive, foreign-style archive "
     "with hardlink chains), in sorted and reversed contents order, and once per directory-denoting symlink with the "
     "directory's descendants spelled through that symlink; each round trip is compared entry by entry with an lstat "
@@ -54,9 +54,9 @@ ASSUMPTIONS = [
     "must run as root on tmpfs (mknod, chown)",
 ]
 BOUNDS = {
-    "quick": "universe of 29 entry specs: all subsets of size <= 3 + all subsets of size 4-5 of a 12-spec "
+    "quick": "universe of 31 entry specs (incl. siblings /l10, /l1x/f of the directory symlink /l1): all subsets of size <= 3 + all subsets of size 4-5 of a 12-spec "
     "core (hardlink triple x alias chain x fifo x device); x 3 writers, 2 orders, every alias variant; empty archives",
-    "thorough": "universe of 33 entry specs (adds 120-char name, non-ASCII name with space, uid 3000000, symlink to parent): "
+    "thorough": "universe of 37 entry specs (adds prefix-siblings /l1y, /l1_, 120-char name, non-ASCII name with space, uid 3000000, symlink to parent): "
     "all subsets of size <= 4 + core subsets of size 5-7; same variants",
 }
 
@@ -100,9 +100,15 @@ def _universe(tier):
         ["b", "/d/b", 7, 0, 0o660, 0, 6],
         ["d", "/x", 0o1777, 0, 0],
         ["d", "/d/e/y", 0o750, 1234, 100],
+        # names of which the symlink name /l1 is a strict string prefix, next character sorting after "/":
+        # siblings of a symlinked directory, never below it
+        ["f", "/l10", "A"],
+        ["f", "/l1x/f", "B"],
     ]
     if tier == "thorough":
         u += [
+            ["s", "/l1y", "d/f", 0, 0],
+            ["d", "/l1_", 0o755, 0, 0],
             ["f", LONGNAME, "A"],
             ["f", "/ü x", "B"],
             ["f", "/g", "U"],
